@@ -143,7 +143,7 @@ func vxHitStep(withOrigin bool, kinds []int) {
 		vxAssert(vxImplies(strict, validated), "C02/reused-unvalidated-despite-no-cache-or-must-revalidate")
 		failure := vxOr(kind == 3, vxAnd(kind == 2 || kind == 4, vxIsSIEStatus(vstatus)))
 		vxAssert(vxImplies(exceeds, vxOr(validated, vxAnd(calls >= 1, failure))), "C02/reused-unvalidated-despite-request-max-age")
-		if calls == 0 && x.cc.noCacheQualified {
+		if !validated && x.cc.noCacheQualified { // served without (successful) validation: hit, max-stale, SWR, stale-if-error
 			_, has := resp.Header["X-A"]
 			vxAssert(vxImplies(x.cc.noCache, !has), "C02/qualified-no-cache-field-replayed")
 		}
